@@ -57,7 +57,13 @@ where
         + ContextError<Span<'a>>
         + std::fmt::Debug,
 {
-    preceded(char('$'), delimited(char('{'), super::op_0, char('}')))(input)
+    preceded(
+        char('$'),
+        super::nested(
+            super::NEST_BRACKET,
+            delimited(char('{'), super::op_0, char('}')),
+        ),
+    )(input)
 }
 
 fn parse_template_fragment<'a, E>(input: Span<'a>) -> IResult<Span<'a>, StringFragment<'a>, E>
